@@ -10,6 +10,7 @@ import (
 	"sort"
 	"strings"
 	"sync"
+	"sync/atomic"
 	"time"
 
 	"golang.org/x/tools/go/packages"
@@ -69,6 +70,9 @@ type Engine struct {
 	stepCap  int
 	allocCap int
 	timeout  int // solver ms per query
+
+	fallbacks  atomic.Int64
+	fallbackOK atomic.Int64
 
 	patMu sync.Mutex
 	pats  map[string]int
